@@ -161,7 +161,7 @@ func c01CheckGuardIn(p *core.Program, env an.PEnv, g c01Guard, start, end *ssa.B
 		if !ok {
 			continue
 		}
-		m, failOnTrue := g.m(iff)
+		m, failOnTrue := an.MatchIf(g.m, iff)
 		if !m {
 			continue
 		}
@@ -219,7 +219,7 @@ func c01CheckGuardIn(p *core.Program, env an.PEnv, g c01Guard, start, end *ssa.B
 				}
 			}
 			for _, a := range g.allowed {
-				if m2, region := a(cc.If); m2 && region == cc.Truth {
+				if m2, region := an.MatchIf(a, cc.If); m2 && region == cc.Truth {
 					okc = true
 				}
 			}
@@ -231,7 +231,7 @@ func c01CheckGuardIn(p *core.Program, env an.PEnv, g c01Guard, start, end *ssa.B
 		for _, rq := range g.required {
 			have := false
 			for _, cc := range controlConds(b) {
-				if m2, region := rq(cc.If); m2 && region == cc.Truth {
+				if m2, region := an.MatchIf(rq, cc.If); m2 && region == cc.Truth {
 					have = true
 				}
 			}
@@ -344,7 +344,7 @@ func c01LoopGuards() []c01Guard {
 		{key: "multisig/keys-negative", what: "CHECKMULTISIG: negative key count fails", ops: []int{0xae, 0xaf}, svs: []int{svBase, svV0}, m: an.MatchCmpConst(0, token.LSS, aTopInt)},
 		{key: "multisig/keys-max", what: "CHECKMULTISIG: more than 20 keys fail", ops: []int{0xae, 0xaf}, svs: []int{svBase, svV0}, m: an.MatchCmpConst(20, token.GTR, aTopInt)},
 		{key: "multisig/opcount", what: "CHECKMULTISIG: the key count is added to the opcode count, limit 201", ops: []int{0xae, 0xaf}, svs: []int{svBase, svV0}, m: c01CounterPlus(201, aTopInt)},
-		{key: "multisig/sigs-range", what: "CHECKMULTISIG: signature count above the key count fails", ops: []int{0xae, 0xaf}, svs: []int{svBase, svV0}, m: an.MatchCmpValues(token.GTR, []string{aTopInt}, []string{aTopInt})},
+		{key: "multisig/sigs-range", what: "CHECKMULTISIG: signature count above the key count fails", ops: []int{0xae, 0xaf}, svs: []int{svBase, svV0}, m: an.MatchCmpDependent(token.GTR, aTopInt)},
 		{key: "multisig/encoding", what: "CHECKMULTISIG: signature and key encodings are checked before each verification", ops: []int{0xae, 0xaf}, svs: []int{svBase, svV0}, m: an.MatchBoolCall(false, "lib/script.CheckSignatureEncoding"),
 			allowed: []c01Matcher{an.MatchCmpConst(0, token.GTR, aTopInt)}},
 		{key: "multisig/pubkey-encoding", what: "CHECKMULTISIG: key encodings are checked", ops: []int{0xae, 0xaf}, svs: []int{svBase, svV0}, m: an.MatchBoolCall(false, "lib/script.CheckPubKeyEncoding"),
@@ -589,7 +589,7 @@ func c01CheckFnGuard(p *core.Program, fg c01FnGuard) (bool, string, string) {
 			n := 0
 			for _, b := range fn.Blocks {
 				if iff, isIf := b.Instrs[len(b.Instrs)-1].(*ssa.If); isIf {
-					if m, regionOnTrue := as.m(iff); m {
+					if m, regionOnTrue := an.MatchIf(as.m, iff); m {
 						env[iff.Cond] = constant.MakeBool(regionOnTrue == as.holds)
 						n++
 					}
